@@ -72,7 +72,8 @@ def correspond_run(ctx, lines, name="run", variant="default"):
 
 
 def has_softfork(p_tt):
-    return "a24;" in p_tt
+    # the keyword itself, or one of the literals gen_prog.composed_programs computes it from at run time
+    return "a24;" in p_tt or "a24ffffffff;" in p_tt or "a7f7f7f7f24;" in p_tt
 
 
 def note_outcomes(ctx, outs, key="outcome"):
